@@ -23,6 +23,14 @@ Definition CallS (f : Z) (args : list expr) : stmt := SCall (Z.to_nat f) args.
 (* targets of a multiple assignment: a negative number is the blank identifier *)
 Definition CallAsg (decl : bool) (xs : list Z) (f : Z) (args : list expr) : stmt :=
   SCallAssign decl (map (fun x => if x <? 0 then None else Some (Z.to_N x)) xs) (Z.to_nat f) args.
+(* switch: clauses as (integer comparison?, case expressions, body); the default body last, if any *)
+Fixpoint Cases (cs : list (bool * list expr * stmt)) (dflt : option stmt) : stmt :=
+  match cs with
+  | [] => match dflt with Some b => CDefault b | None => CNil end
+  | (num, es, b) :: t => CCase num es b (Cases t dflt)
+  end.
+Definition Switch (tag : option expr) (cs : list (bool * list expr * stmt)) (dflt : option stmt) : stmt :=
+  SSwitch tag (Cases cs dflt).
 Fixpoint Seq (l : list stmt) : stmt := match l with [] => SSkip | [s] => s | s :: t => SSeq s (Seq t) end.
 
 Definition LdLoc (n : Z) := ILdLoc (Z.to_nat n).
@@ -74,7 +82,7 @@ Definition instr_eqb (a b : instr) : bool :=
   | IPushB x, IPushB y => Bool.eqb x y
   | IAdd, IAdd | ISub, ISub | IMul, IMul | IDiv, IDiv | IMod, IMod | INegate, INegate | IInc, IInc | IDec, IDec
   | INot, INot | IRet, IRet | IDrop, IDrop | ISwap, ISwap | IReverse3, IReverse3 | IReverse4, IReverse4
-  | IReverseN, IReverseN | INop, INop => true
+  | IReverseN, IReverseN | INop, INop | IDup, IDup | IEqual, IEqual => true
   | ICmp x, ICmp y => cmp_eqb x y
   | ILdLoc x, ILdLoc y | IStLoc x, IStLoc y | ILdArg x, ILdArg y | IStArg x, IStArg y
   | IJmp x, IJmp y | IJmpIf x, IJmpIf y | IJmpIfNot x, IJmpIfNot y | ICall x, ICall y => Nat.eqb x y
